@@ -30,3 +30,15 @@ def int_value(s):
         return int(s)
     except ValueError:
         return 0
+
+
+@specfn({'pattern': 'str', 'text': 'str'}, 'bool', opaque=True)
+def glob(pattern, text):
+    """`*` in the pattern stands for any run of characters (the meaning of core.matcher.str_matcher)"""
+    import re
+    return re.match('^' + re.escape(pattern).replace(r'\*', '.*') + '$', text) is not None
+
+
+from pyvc.contracts import axiom
+axiom('glob_reflexive', 'all(glob(p, p) for p in strs())',
+      'a pattern matches itself (each `*` matches the `*`); assumed of the opaque glob function, checked natively on samples')
